@@ -43,7 +43,7 @@ func injectConsts(k *h.Case, g *spec.Gen, prog *spec.Program) []*constDef {
 	var defs []*constDef
 	nItems := len(prog.Items)
 	for i := 0; i < n; i++ {
-		d := &constDef{name: g.Name("CONST_")}
+		d := &constDef{name: g.Name([]string{"CONST_", "CONST_", "ÉTAGE_", "定数_"}[r.IntN(4)])}
 		v := constValuePool[r.IntN(len(constValuePool))]
 		d.value = append([]string{}, v...)
 		if len(defs) > 0 && r.IntN(2) == 0 {
